@@ -233,13 +233,6 @@ def c11Oracle (schema : Schema) (root : Str) (op : ParsedOperation) (norm : List
 
 /-! ### C12: response keys -/
 
-def isNameStart (c : Nat) : Bool := c == 95 || (65 ≤ c && c ≤ 90) || (97 ≤ c && c ≤ 122)
-
-/-- GraphQL `Name`: `[_A-Za-z][_0-9A-Za-z]*` -/
-def isGqlName : Str → Bool
-  | [] => false
-  | c :: rest => isNameStart c && rest.all isWordChar
-
 mutual
 def Value.anyStr (p : Str → Bool) : Value → Bool
   | .str s => p s
@@ -268,19 +261,6 @@ def Value.anyLeafList (p : Value → Bool) : List Value → Bool
 end
 
 def argsAny (p : Value → Bool) (args : Args) : Bool := args.any fun a => a.2.anyLeaf p
-
-mutual
-/-- strings replaced by their collapse -/
-def Value.collapse : Value → Value
-  | .str s => .str (collapseStr s)
-  | .obj fields => .obj (Value.collapseFields fields)
-  | v => v
-def Value.collapseFields : List (Str × Value) → List (Str × Value)
-  | [] => []
-  | (k, v) :: rest => (k, v.collapse) :: Value.collapseFields rest
-end
-
-def collapseArgs (args : Args) : Args := Value.collapseFields args
 
 /-- narrow classifier for an illegal key -/
 def classifyIllegal (key : Str) (args : Args) : String :=
@@ -601,6 +581,8 @@ def strSetEq (a b : List Str) : Bool := a.all (b.contains ·) && b.all (a.contai
 
 namespace Drv
 
+def toks (s : String) : List String := (s.splitOn " ").filter (· != "")
+
 def parseTable (ts : List String) : List (Str × Str) :=
   match pRepeat pPair (ts.length / 2) ts with
   | some (ps, _) => ps
@@ -708,9 +690,71 @@ def persistedLine (wires table plain impl : List String) : String :=
         if same then "ok" else "bad:document-differs"
   model ++ "\t" ++ verdict
 
+def pNameArgs (ts : List String) : Option (Str × Args) :=
+  match pStr ts with
+  | none => none
+  | some (name, r1) => (pArgs (ts.length + 1) r1).map fun (a, _) => (name, a)
+
+def aliasField (name : Str) (args : Args) : String :=
+  if args.isEmpty then "none" else
+  match aliasOf name args with
+  | some a => strHex a
+  | none => "panic"
+
+/-- the key of the selection as text: the alias field of the answer, or the name when `none` -/
+def keyOfAnswer (name : Str) (aliasAns : String) : Option Str :=
+  if aliasAns == "none" then some name else if aliasAns == "panic" then none else hexStr aliasAns
+
 def aliasLine (_prop : String) (args impl : List String) : String :=
-  let _ := (args, impl)
-  "todo\tok"
+  match args with
+  | [w] =>
+    match pNameArgs (toks w) with
+    | none => "unparsable-wire\tok"
+    | some (name, a) =>
+      let single : SelMap := [(⟨0, .serverField name a⟩, Sel.scalar false name a)]
+      let qt := optHex (printQuery .compact cs!"query" cs!"Q" [] single)
+      let na := printNormAst 0 single
+      let rt := match na with
+        | none => "panic"
+        | some _ =>
+          match networkResponseKey name a with
+          | some units => strHex (utf16Decode units)
+          | none => "syntax-error"
+      let model := aliasField name a ++ " " ++ qt ++ " " ++ optHex na ++ " " ++ rt
+      -- oracle on the implementation's answer
+      let verdict :=
+        match impl with
+        | [al, _, _, runtime] =>
+          match keyOfAnswer name al with
+          | none => "ok"          -- list value: the compiler panics, no key exists
+          | some key =>
+            if !(isGqlName key) then "bad:illegal-key:" ++ classifyIllegal key a
+            else if runtime == strHex key then "ok"
+            else "bad:runtime-key:" ++ classifyRuntime a
+        | _ => "bad:unparsable-impl-answer"
+      model ++ "\t" ++ verdict
+  | _ => "bad-op\tok"
+
+def alias2Line (args impl : List String) : String :=
+  match args with
+  | [w1, w2] =>
+    match pNameArgs (toks w1), pNameArgs (toks w2) with
+    | some (n1, a1), some (n2, a2) =>
+      let model := aliasField n1 a1 ++ " " ++ aliasField n2 a2
+      let verdict :=
+        match impl with
+        | [al1, al2] =>
+          match keyOfAnswer n1 al1, keyOfAnswer n2 al2 with
+          | some k1, some k2 =>
+            let same := n1 == n2 && argsBeq a1 a2
+            if k1 == k2 && !same then "bad:key-collision:" ++ classifyCollision n1 a1 n2 a2
+            else if k1 != k2 && same then "bad:key-not-a-function"
+            else "ok"
+          | _, _ => "ok"
+        | _ => "bad:unparsable-impl-answer"
+      model ++ "\t" ++ verdict
+    | _, _ => "unparsable-wire\tok"
+  | _ => "bad-op\tok"
 
 end Drv
 end IsoVerif.Core
